@@ -6,7 +6,7 @@ two must agree on every attached position.  usage: c06_modelval.py <replay-exe> 
 import random, struct, subprocess, sys
 exe = sys.argv[1]; n = int(sys.argv[2]) if len(sys.argv) > 2 else 300; seed = int(sys.argv[3]) if len(sys.argv) > 3 else 0
 rnd = random.Random(seed)
-H = {"air2_aa": 2, "air3_aaa": 3, "air3_aba": 3, "air3_aab": 3, "air3_abb": 3, "air4_aaaa": 4, "air4_abab": 4, "air2_surf_aaa": 3, "air2_surf_aab": 3,
+H = {"air4_aabb": 4, "air4_abba": 4, "air3_surf_aaaa": 4, "air2_surf_air_aaaa": 4, "air_surf2_aaa": 3, "surf_air2_aaa": 3, "air_surf_air_aba": 3, "air2_aa": 2, "air3_aaa": 3, "air3_aba": 3, "air3_aab": 3, "air3_abb": 3, "air4_aaaa": 4, "air4_abab": 4, "air2_surf_aaa": 3, "air2_surf_aab": 3,
      "surf2_aa": 2, "air_surf_air_aaa": 3, "surf_air_surf_aaa": 3}
 bad = 0; ran = 0
 for i in range(n):
